@@ -488,6 +488,20 @@ def monitorCall (cfg : Cfg) (m : MonSt) (name : String) (ln : Nat) (op : List St
         if !kept.isEmpty then
           r.viol s!"C08 not_released_on_close@{site}" s!"{here}: identifiers {kept} of exchanges that end with the connection are still in use after the transport was reported closed: {evS}" else r
       else r
+    -- C08: a refused send of a packet that starts an exchange releases the identifier obtained for it
+    let r := match op, parseDescr oracle with
+      | "send" :: _, some p =>
+        let starts := (p.kind = Kind.publish ∧ p.qos > 0) ∨ p.kind = Kind.subscribe ∨ p.kind = Kind.unsubscribe
+        (match p.pid with
+         | some id =>
+           let owned := (idsOf (gp "suback") ++ idsOf (gp "unsuback") ++ idsOf (gp "puback") ++ idsOf (gp "pubrec") ++
+             idsOf (gp "pubcomp") ++ storeIds (gp "store")).contains id
+           let sentAny := evs.any fun (e : Ev) => match e with | .send _ _ => true | _ => false
+           let storedNow := (storeIds (g "store")).contains id
+           if starts ∧ Mon.hasError evs ∧ !sentAny ∧ !storedNow ∧ usedBefore id ∧ !owned ∧ !ivContains after id then
+             r.viol s!"C08 refused_send_keeps_id@{site}" s!"{here}: the send was refused ({evS}) but identifier {id}, obtained for it and owned by no exchange, is still in use and no NotifyPacketIdReleased was issued" else r
+         | none => r)
+      | _, _ => r
     -- C06
     let stB := storeIds (gp "store")
     let stA := storeIds (g "store")
@@ -531,7 +545,7 @@ def monitorCall (cfg : Cfg) (m : MonSt) (name : String) (ln : Nat) (op : List St
     -- resume: stored packets are requested again right after the CONNACK, in store order
     let resumed : Bool := evs.any fun (e : Ev) => match e with
       | .recv p => p.kind = Kind.connack ∧ p.rc = some 0 ∧ p.sp ∧ stBefore ≠ "C"
-      | .send p _ => p.kind = Kind.connack ∧ p.rc = some 0
+      | .send p _ => p.kind = Kind.connack ∧ p.rc = some 0 ∧ p.sp
       | _ => false
     let r := if resumed ∧ !m.prev.isEmpty ∧ !newSession then
         let expect := stB.filter fun id => !rel.contains id
@@ -664,13 +678,14 @@ deriving Inhabited
 def connY (run : ConnRun) (ln : Nat) (line : String) (r : Report) : ConnRun × Report :=
   let here := s!"{run.cs.name} line {ln}"
   let pid := run.cs.cmp
-  let what := if pid = "C16" then "restored_differs" else "reused_differs"
-  let who := if pid = "C16" then ("original (closed, resumed)", "restored") else ("reused", "fresh")
+  let what := if pid = "C16" then "restored_differs" else if pid = "C17" then "undetermined_differs" else "reused_differs"
+  let who := if pid = "C16" then ("original (closed, resumed)", "restored")
+    else if pid = "C17" then ("undetermined", "fixed-version") else ("reused", "fresh")
   match line.splitOn " | " with
   | [_, evS, retS, digest] =>
     let verR := kvGet (digestFields digest) "ver"
     let verF := kvGet (digestFields run.lastDig) "ver"
-    if run.verDiff ∨ (digest ≠ "-" ∧ run.lastDig ≠ "-" ∧ verR ≠ verF) then
+    if pid ≠ "C17" ∧ (run.verDiff ∨ (digest ≠ "-" ∧ run.lastDig ≠ "-" ∧ verR ≠ verF)) then
       -- root cause classified: every further difference in this trace follows from it
       ({ run with verDiff := true }, r.viol s!"{pid} adopted_version_survives_close@undetermined" s!"{here}: a connection created with an undetermined version keeps the version adopted on its first connection after the transport closed: reused ver={verR}, fresh ver={verF}")
     else (run, if evS = "MISSING" ∨ evS.startsWith "EXTRA" then
